@@ -103,6 +103,22 @@ def run(chk, facts_dir, tier):
                          "value instead of being rejected" % show(term)[:90], b, s_.line)
     chk.floor("R22.3", n_cast, 2)
 
+    # ---------------- R22.4 every buffered request is decoded and answered
+    chk.rule("R22.4", "THE READ BUFFER IS DRAINED: in Conn::run every call to decode_bytes_mut sits in a loop that comes back to it after a request was handled (both select! arms, "
+                      "with and without subscriptions); a single decode per socket read leaves a pipelined request unanswered until the client sends something else")
+    rb_ = prog.bodies.get(S + "server::Conn::run::{closure#0}")
+    if rb_ is None:
+        raise Inconclusive("Conn::run coroutine not found")
+    decs = [(bi, t) for bi, t in rb_.calls() if (rb_.callee_decl(t) or "").endswith("decode_bytes_mut")]
+    for bi, t in decs:
+        succ = [t["target"]] if t.get("target") is not None else []
+        if succ and bi in rb_.reach_from(succ, avoid=frozenset(_select_heads(rb_))):
+            chk.ok("R22.4", "decode_bytes_mut at L%s is re-entered after each handled request" % t.get("line"), rb_.where(t["line"]))
+        else:
+            chk.fail("R22.4", S + "server::Conn::run", "single-decode", "only one request is decoded per socket read here: a second request that arrived in the same read stays in the "
+                     "buffer and is neither executed nor answered until more bytes arrive", rb_, t["line"])
+    chk.floor("R22.4", len(decs), 2)
+
     # ESub / EPSub handle_request never return Ok(None)
     for nm in ("esub::ESub", "epsub::EPSub"):
         hb = prog.bodies.get(S + "<request::%s as request::HandleRequest>::handle_request::{closure#0}" % nm)
@@ -178,3 +194,8 @@ def _line_has(body, line, needle):
             _SRC[path] = []
     src = _SRC[path]
     return 0 < line <= len(src) and needle in src[line - 1]
+
+
+def _select_heads(body):
+    """blocks that start a new turn of the connection loop: the socket reads (read_buf / read) - a path back to decode through them is a new turn, not the drain loop"""
+    return [bi for bi, t in body.calls() if any(x in (body.callee_decl(t) or "") for x in ("AsyncReadExt::read_buf", "AsyncReadExt::read", "Receiver::<T>::recv", "UnboundedReceiver::<T>::recv"))]
